@@ -30,7 +30,7 @@ def failure_site(f):
     d = re.sub(r'packet \d+ \(pts -?\d+\)[:,]?', '', d)
     d = re.sub(r'display position \d+ \(pts -?\d+\)[:,]?', '', d)
     d = re.sub(r'\(decision \d+\)', '', d)
-    if f['name'] in ('stream_header_api_differs', 'seq_header_differs'):
+    if f['name'] in ('stream_header_api_differs', 'seq_header_differs', 'sse_mismatch'):
         return f['name']
     d = re.sub(r'\b[0-9a-f]{12,}\b', 'H', d)
     return f['name'] + ':' + norm(d.strip(), 70)
@@ -267,6 +267,10 @@ def out_key(r):
 
 def diff_detail(a, b):
     """first differing packet / recon between two results"""
+    if 'pictures' in a and 'pictures' in b:   # decoder instances
+        qa, qb = a['pictures'], b['pictures']
+        first = next((k for k, (x, y) in enumerate(zip(qa, qb)) if x != y), None)
+        return 'dec_pictures', 'decoder output: %d vs %d pictures, first differing picture %s' % (len(qa), len(qb), first)
     pa, pb = a.get('packets', []), b.get('packets', [])
     if len(pa) != len(pb):
         return 'count', 'packet count %d vs %d' % (len(pa), len(pb))
